@@ -60,6 +60,24 @@ CHECKS.update({
     note="Trusts the real readers/writers (the property is about the CLI layer); abstentions listed in evidence assumptions; histories sampled.",
     design="DESIGN.md section 4, C19"),
 })
+CHECKS.update({
+  "C02": dict(
+    technique="runtime monitoring: metamorphic probes on the real code (snapshot at t vs snapshot at the floor significant time), reference change-point oracle, and sequence-vs-snapshots comparison",
+    text="For generated documents with timed animation on offset elements/regions, every reference boundary instant, every midpoint between "
+         "reported entries and instants before/after the list are probed: the real snapshot must equal the snapshot at the greatest reported time not "
+         "after it (empty before the first); every instant at which the reference presentation changes must be reported; the list is strictly "
+         "increasing; generate_isd_sequence equals the snapshots at the entries in order.",
+    note="Known finding D-SIG-ANIM is attributed by an exact mechanism classifier (see known_findings.json); content-less regions that paint nothing are ignored.",
+    design="DESIGN.md section 4, C02"),
+  "C14": dict(
+    technique="runtime monitoring: call-history monitor (fingerprint of the document argument before/after every monitored call, nested calls included) + differential cached/uncached and repeat/fresh comparisons over random operation interleavings",
+    text="Wrappers re-bound on significant_times, from_model, generate_isd_sequence and the three writers fingerprint the source document (structure, "
+         "timing, styles, regions, initial values, object identity) around every call, including the calls writers make internally; random histories of "
+         "4-11 operations run on one document object; repeated calls must return equal results, results must equal those on a fresh copy, and cached "
+         "snapshots must equal uncached ones at every boundary instant modulo content-less regions that paint nothing.",
+    note="Interleavings are sampled (one history per document), not enumerated.",
+    design="DESIGN.md section 4, C14"),
+})
 NOT_CLAIMED = {}
 
 def main():
